@@ -33,11 +33,13 @@ def parseLine (l : Line) : Option Obs := do
          err := ← (kv? l.obs "err").bind optNat,
          fs := ← (kv? l.obs "fs").bind optNat, fe := ← (kv? l.obs "fe").bind optNat,
          runs := ← nat l.obs "runs", stuck := ← flag l.obs "stuck",
-         panicked := (kv? l.obs "panic") = some "1" }
+         panicked := (kv? l.obs "panic") = some "1",
+         spanic := (kv? l.op "panic") = some "1" }
 
 /-- well-formedness of one observed call (a broken harness or a broken stamp order is a mismatch). -/
 def wellFormed (o : Obs) : Option String :=
   if !(o.inv < o.ret) then some "inv<ret"
+  else if o.id = 0 then some "id>0"      -- 0 stands for Go's zero value in the models
   else match o.fs, o.fe with
     | some s, some e => if o.runs = 0 then some "stamps-without-run" else if o.inv < s && s < e && e < o.ret then none else some "inv<fs<fe<ret"
     | none, none => if o.runs = 0 then none else some "run-without-stamps"
@@ -83,6 +85,8 @@ def runSection (r : Report) (s : Section) : Report := Id.run do
     if o.ran then r := r.addCover s!"{mode}-executed" else r := r.addCover s!"{mode}-shared"
     if o.err.isSome then r := r.addCover s!"{mode}-err-result"
     if o.hold then r := r.addCover s!"{mode}-held"
+    if o.panicked then r := r.addCover s!"{mode}-fn-panicked"
+    if mode = "sf" && !o.ran && o.val.isNone && !o.panicked then r := r.addCover "sf-joiner-of-panicked-flight-got-zero"
     if mode = "sf" then
       if !o.ran then
         match h.find? (fun l => some l.id = o.val) with
